@@ -14,7 +14,7 @@ import (
 func init() {
 	eng.Register(&eng.Check{
 		ID:          "C18",
-		Rule:        "E1 over configurations: ALL option sequences of length <=3 (thorough <=4) over the alphabet {WithTagName bexpr|json|\"\"; WithHookFn nil|identity|unwrap-wrapper|constant-42; WithUnknownValue 0|\"\"|\"a\"; WithMaxExpressions 0|N+1|2^64-1|N-1; a nil Option} (15 letters: every subset, order and repetition) x expressions x data exercising tags, wrapper values and absent keys; oracle: creation fails iff the effective (last) budget is N-1, otherwise the outcome of the 1st, 2nd and 3rd Evaluate equals the reference under the EFFECTIVE configuration (last occurrence of each option wins; order of distinct options irrelevant; neutral settings equal absence). N is found per expression by bisection over the public option. Distinct by construction; non-trivial = sequence with >=2 non-nil options.",
+		Rule:        "E1 over configurations: ALL option sequences of length <=3 (thorough <=4) over the alphabet {WithTagName bexpr|json|\"\"; WithHookFn nil|identity|unwrap-wrapper|constant-42; WithUnknownValue 0|\"\"|\"a\"|json.Number(1e0); WithMaxExpressions 0|N+1|2^64-1|N-1; a nil Option} (16 letters: every subset, order and repetition) x expressions x data exercising tags, wrapper values and absent keys; oracle: creation fails iff the effective (last) budget is N-1, otherwise the outcome of the 1st, 2nd and 3rd Evaluate equals the reference under the EFFECTIVE configuration (last occurrence of each option wins; order of distinct options irrelevant; neutral settings equal absence). N is found per expression by bisection over the public option. Distinct by construction; non-trivial = sequence with >=2 non-nil options.",
 		Assumptions: []string{"reference interpreter as C01 incl. the hook family written in the idiom of the repository's tests", "N (parser step count) located by bisection, monotonicity itself is C11's business"},
 		Run:         runC18,
 	})
@@ -36,6 +36,8 @@ func c18Alphabet() []optLetter {
 		{name: "Tag(-e+U+0301)", kind: 0, tag: "-e\u0301"},
 		{name: "Hook(nil)", kind: 1, hook: HookNone}, {name: "Hook(identity)", kind: 1, hook: HookIdentity}, {name: "Hook(unwrap)", kind: 1, hook: HookUnwrap}, {name: "Hook(const42)", kind: 1, hook: HookConst},
 		{name: "Unknown(0)", kind: 2, unk: NInt(KInt, false, 0)}, {name: "Unknown(\"\")", kind: 2, unk: str("")}, {name: "Unknown(a)", kind: 2, unk: str("a")},
+		// a json.Number unknown value is the NUMBER it spells (== 1 holds, is empty errors), exactly as when a document holds it
+		{name: "Unknown(json.Number 1e0)", kind: 2, unk: NJSON("1e0")},
 		{name: "Max(0)", kind: 3, bud: 0}, {name: "Max(N+1)", kind: 3, bud: 1}, {name: "Max(2^64-1)", kind: 3, bud: 2}, {name: "Max(N-1)", kind: 3, bud: 3},
 		{name: "nil", kind: 4},
 	}
